@@ -1,1 +1,40 @@
+(* C05 - Every slice handed out points into live memory (ownership protocol; PARTIAL, see DESIGN.md). *)
+From Coq Require Import List Arith.
 From WP Require Import iovec.Anchors.
+Import ListNotations.
+
+(* In every state of the anchor deque reachable by copies (joining the back anchor or opening a new
+   one), borrowed pushes, merges of the last pair, anchored input (any pieces, then the anchor),
+   consume and clear: the counts sum to the number of slices, every arena slice is protected by an
+   anchor that holds its chunk and is popped no earlier than the slice, and therefore a chunk
+   referenced by a remaining slice is referenced by a remaining anchor -- with Arc semantics it has
+   not been released. *)
+Theorem C05_core (ops : list op) :
+  let g := fold_left (fun g o => apply_op o g) ops {| slices := []; anchors := [] |} in
+  Inv g /\ forall p c, nth_error (slices g) p = Some (Some c) -> held g c.
+Proof. exact (Anchors.C05_core ops). Qed.
+
+(* arena memory is released only when no slice can reach it: consuming k slices pops only anchors
+   whose slices are all consumed; every remaining arena slice stays protected *)
+Theorem C05_release_only_unreachable g k : Inv g -> k <= length (slices g) -> Inv (consume k g).
+Proof. exact (consume_inv g k). Qed.
+
+(* while pieces of an anchored buffer are being pushed and its anchor is still in the caller's
+   hands, every other arena slice stays protected *)
+Theorem C05_anchored_window c g subs : Inv g -> WInv c (fold_left (apply_sub c) subs g).
+Proof.
+  intros I. generalize (Inv_WInv c g I). generalize g. induction subs as [|s subs IH]; intros g0 W; cbn [fold_left]; [exact W|].
+  apply IH. destruct s; cbn [apply_sub]; [apply winv_push_borrowed; auto|apply winv_push_owned; auto|apply winv_collapse; auto].
+Qed.
+
+(* non-vacuity: an anchored slice, an adjacent copy that may not be merged into it, consumption *)
+Example C05_example :
+  let g := fold_left (fun g o => apply_op o g)
+             [OpCopy 1; OpAnchored 2 [SubBorrow]; OpCopy 2; OpBorrow; OpConsume 1; OpCopy 1] {| slices := []; anchors := [] |} in
+  slices g = [Some 2; Some 2; None; Some 1] /\
+  anchors g = [{| acount := 1; achunk := Some 1 |}; {| acount := 2; achunk := Some 2 |}; {| acount := 1; achunk := Some 1 |}].
+Proof. vm_compute. split; reflexivity. Qed.
+
+Print Assumptions C05_core.
+Print Assumptions C05_release_only_unreachable.
+Print Assumptions C05_anchored_window.
